@@ -14,6 +14,8 @@ enforce: spiftool_safe_strncat
 backend: sat
 loops: 1
 funcs: spiftool_safe_strncpy
+native: strhelp
+native_includes: strings.c
 */
 /*@unit
 name: safe_strncat.text
@@ -23,6 +25,8 @@ enforce: spiftool_safe_strncat
 backend: sat
 loops: 1
 funcs: spiftool_safe_strncpy
+native: strhelp
+native_includes: strings.c
 */
 /*@unit
 name: safe_strncat_unterm
@@ -32,6 +36,8 @@ enforce: spiftool_safe_strncat
 backend: sat
 loops: 1
 funcs: spiftool_safe_strncpy
+native: strhelp
+native_includes: strings.c
 */
 #define VERIF_OWN_STRLEN
 #ifdef U_TERM
